@@ -56,7 +56,9 @@ Definition expect_nonshared (sp : spec) (o : iopts) : option (list ient) :=
       else Some (sel sp (fun k _ => let '(c, g, f) := k in is_empty g && str_eqb (io_client o) c))
   end.
 
-(* expected answer of the shared part: (must contain, may contain) *)
+(* expected answer of the shared part: (must contain, may contain).  Since the repair of
+   getMatchedTopicFilter the lookup by topic applies MQTT-4.7.2-1 to shared filters too, so both
+   bounds are full topic_match (the upper bound used to be level matching only). *)
 Definition expect_shared (sp : spec) (o : iopts) : option (list ient * list ient) :=
   match io_mt o with
   | MatchFilter =>
@@ -64,7 +66,7 @@ Definition expect_shared (sp : spec) (o : iopts) : option (list ient * list ient
       else Some (sel sp (fun k _ => let '(c, g, f) := k in
                    negb (is_empty g) && topic_match (io_topic o) f && client_ok (io_client o) c),
                  sel sp (fun k _ => let '(c, g, f) := k in
-                   negb (is_empty g) && lm (split (io_topic o)) (split f) && client_ok (io_client o) c))
+                   negb (is_empty g) && topic_match (io_topic o) f && client_ok (io_client o) c))
   | MatchName =>
       if is_empty (io_topic o) then None
       else if has_prefix SHARE_PREFIX (io_topic o) then
